@@ -4,7 +4,7 @@ from lib.coqterm import cbool, cbytes, clist, cN, cZ
 
 ID = "C05"
 QUICK_N = 1500
-THOROUGH_N = 20000
+THOROUGH_N = 12000
 SHARD = 125
 COQ_PRELUDE = "From MV Require Import Model.Http2Streams.\n"
 RULE = ("70% end-to-end schedules: a real HttpLayer (regular mode, HTTP/2 client, HTTP/2 upstream) between two real in-memory "
@@ -22,9 +22,13 @@ TRUSTED = ["Coq 8.16.1 kernel; vm_compute for case evaluation",
            "it is tied to the library only by the correspondence runs; HPACK/framing are outside the model (frames are parsed by "
            "hyperframe/hpack in the harness)",
            "HttpStream (the relay between the two connections) is not modelled: the events it delivers are recorded from the real "
-           "run; the contract wf_first (first event of a stream is RequestHeaders) is checked on every recorded history",
+           "run; the contract wf_first (first event of a stream is RequestHeaders) is checked on every recorded end-to-end history",
+           "whole-history per-stream byte order is proved per BufferedH2Connection operation only (C05_send_data_conserve, "
+           "C05_flush_conserve); its composition over histories is covered by the correspondence runs and the end-to-end oracle",
            "logging subclasses of Http2Server/Http2Client that only record and delegate; lib/sansio.py driver"]
-ASSUMPTIONS = ["peers are protocol-conforming h2 endpoints that see the proxy output before their next action (no frames for "
+ASSUMPTIONS = ["runs in which h2_conn.receive_data raised (caught by the layer as HTTP/2 protocol error) or a connection object was "
+               "re-entered while its generator was suspended are checked by the oracle but skipped for the correspondence (tag skipped-*)",
+               "peers are protocol-conforming h2 endpoints that see the proxy output before their next action (no frames for "
                "streams the proxy already closed); padding, PRIORITY, CONTINUATION, push are not generated",
                "inbound flow control of the proxy (WINDOW_UPDATE frames it emits) is not compared",
                "header content is an opaque token (x-id / x-tr); header translation is property C06"]
@@ -420,7 +424,11 @@ class _Run:
             return []
         if isinstance(c, cm.CloseConnection):
             return [["C"]]
-        if isinstance(c, (cm.Log, cm.RequestWakeup)):
+        if isinstance(c, cm.Log):
+            if "HTTP/2 protocol error" in str(c.message):
+                self.bad = True    # receive_data raised (h2 rejected a frame, or a flush failed inside it): outside the model
+            return []
+        if isinstance(c, cm.RequestWakeup):
             return []
         self.bad = True
         return []
